@@ -19,10 +19,13 @@ def build_driver(build, bufsz, variant="san"):
     return build.harness(variant, "rt_driver%s" % (bufsz or "real"), ["rt_driver.c"], extra=extra)
 
 
-def run_case(exe, casedir, ops, short="-", keep=False):
+def run_case(exe, casedir, ops, short="-", keep=False, tmpdir=False):
     if os.path.exists(casedir):
         shutil.rmtree(casedir)
     env = dict(os.environ)
+    env.pop("VERIF_TMPDIR", None)
+    if tmpdir:
+        env["VERIF_TMPDIR"] = "1"
     env["ASAN_OPTIONS"] = "detect_leaks=0:abort_on_error=0:exitcode=99"
     env["UBSAN_OPTIONS"] = "halt_on_error=1:exitcode=98"
     try:
@@ -266,6 +269,34 @@ def run_c01(prop, tier):
                               {"kind": "real-window", "program": " ".join(prog)})
         ctx.part("real-window", runs=len(jobs), window=win)
         ctx.add(states=win)
+        # (ii-b) OVNI_TMPDIR: the stream is relocated at thread end by a chunked copy; total stream sizes around
+        # every multiple of the copy chunk (1024) and of the stdio buffer (4096) up to 3 chunks / 2 buffers
+        jobs_t = []
+        for total in sorted(set(k * 1024 + d for k in (1, 2, 3, 4, 8) for d in (-1, 0, 1)) | set(range(8 + 28 + 16 + 28 + 24, 8 + 28 + 16 + 28 + 24 + 6))):
+            # stream = header 8 + X 28 + jumbo (16 + n) + E 12 + final flush markers 24
+            n = total - (8 + 28 + 16 + 12 + 24)
+            if n >= 0:
+                jobs_t.append(["X", "j%d" % n, "E"])
+        jobs_t += [["X", "e16", "f", "j1000", "f", "e0", "E"], ["X", "mp1", "j3000", "mo1", "E"]]
+
+        def one_t(prog):
+            cd = os.path.join(base, "t%d" % os.getpid())
+            rc, err, log = run_case(exe, cd, prog, tmpdir=True)
+            msg = oracle(cd, log, rc, err)
+            left = []
+            for dp, dn, fn in os.walk(os.path.join(cd, "tmp")):
+                left += fn
+            shutil.rmtree(cd, ignore_errors=True)
+            if msg is None and left:
+                msg = "files left in OVNI_TMPDIR after a successful run: %r" % left
+            return msg
+        for prog, msg in zip(jobs_t, pmap(one_t, jobs_t)):
+            ctx.add(evaluations=1, transitions=len(prog))
+            if msg is not None:
+                ctx.violation("OVNI_TMPDIR mode, program %s: %s" % (prog, msg),
+                              {"engine": "E1 rt_driver", "bufsz": None, "program": prog, "short": "-", "oracle": "C01", "tmpdir": True},
+                              {"kind": "tmpdir-relocation"})
+        ctx.part("tmpdir-relocation", runs=len(jobs_t))
         # (iii) deviation-bounded short writes on every write of every path of depth <= 2/3 (small capacity)
         B = 64
         exe = build_driver(build, B)
